@@ -100,8 +100,8 @@ def run_extractors(cfg):
 
 def strip_comments(s):
     s = re.sub(r"/-.*?-/", "", s, flags=re.S)
+    s = re.sub(r'"(\\.|[^"\\])*"', '""', s)   # strings before line comments: "--flag" is not a comment
     s = re.sub(r"--.*", "", s)
-    s = re.sub(r'"(\\.|[^"\\])*"', '""', s)
     return s
 
 
